@@ -117,6 +117,79 @@ Theorem C15_callbacks_conserved : forall tasks s, creachable tasks s ->
 Proof. exact conserved_reachable. Qed.
 Print Assumptions C15_callbacks_conserved.
 
+(* ---- the other chain runners of utils/waterfall, and the Builder ----
+   NewBuilder(s).Next(t)...Final(f).Do() only collects the tasks and calls waterfall.Sche: it
+   is the same model (op OChainB = OChain) and is tied by the correspondence run. *)
+
+(* Every clause of the property is a consequence of "the invocation log is an initial segment
+   of [spec tasks]" (safety), resp. "is [spec tasks]" (liveness) - whatever produced the log. *)
+Theorem C15_laws_from_spec : forall tasks l,
+  (ext_of tasks l -> chain_laws tasks l)
+  /\ (l = spec tasks -> error_jumps tasks l /\ (invoked_once tasks l -> finals_in l = 1%nat)).
+Proof.
+  exact (fun tasks l => conj (laws_of_ext tasks l)
+           (fun E => conj (jumps_of_eq tasks l E) (once_of_eq tasks l E))).
+Qed.
+Print Assumptions C15_laws_from_spec.
+
+(* waterfall.Simple (repaired: empty chain -> final(false)): for every task list and every
+   order of environment completions, if every invoked task completes at most once the log is an
+   initial segment of [spec tasks], and equal to it once no callback is outstanding.  Everything
+   runs nested inside the goroutine that called Simple or the callback (measured). *)
+Theorem C15_simple : forall tasks sr,
+  xreachable tasks sr -> invoked_amo tasks (x_log (fst sr)) ->
+  ext_of tasks (x_log (fst sr))
+  /\ (x_started (fst sr) = true -> x_pool (fst sr) = [] -> x_log (fst sr) = spec tasks).
+Proof. exact simple_holds. Qed.
+Print Assumptions C15_simple.
+
+(* For ALL behaviours: the nesting depth never exceeds the number of tasks (the evaluator's
+   fuel is never exhausted), and a panic reaches the caller of Simple / of the callback only
+   if some task panics (Simple has no recover). *)
+Theorem C15_simple_results : forall tasks sr, xreachable tasks sr ->
+  ~ In XFuel (snd sr) /\ (nopan tasks -> forall r, In r (snd sr) -> r = XOk).
+Proof. exact simple_results. Qed.
+Print Assumptions C15_simple_results.
+
+(* waterfall.ExecAndWait (repaired likewise): for every task list and every interleaving of
+   loop iterations of the caller and environment completions, if every invoked task completes
+   at most once: the log is an initial segment of [spec tasks]; the caller never deadlocks on
+   its own channel and no environment goroutine panics; ExecAndWait has returned only if final
+   ran, exactly once, and the log is complete; and when nothing can move, every invoked task
+   completed exactly once and none panicked, it HAS returned.  (A task that never completes
+   parks the caller for ever; a panicking task takes the caller out of ExecAndWait with final
+   never run - there is no recover.) *)
+Theorem C15_wait : forall tasks s, ereachable tasks s -> invoked_amo tasks (e_log s) ->
+  ext_of tasks (e_log s)
+  /\ e_status s <> ECallerStuck /\ e_envpanics s = O
+  /\ (e_status s = EReturned -> e_log s = spec tasks /\ finals_in (e_log s) = 1%nat)
+  /\ (equiescent tasks s -> invoked_once tasks (e_log s) -> invoked_nopanic tasks (e_log s) ->
+      e_status s = EReturned).
+Proof. exact wait_holds. Qed.
+Print Assumptions C15_wait.
+
+(* The three runners coincide: once done, all three logs are [spec tasks]. *)
+Theorem C15_runners_coincide : forall tasks sc sx se,
+  creachable tasks sc -> cquiescent sc -> invoked_amo tasks (clog sc) ->
+  xreachable tasks sx -> x_started (fst sx) = true -> x_pool (fst sx) = [] -> invoked_amo tasks (x_log (fst sx)) ->
+  ereachable tasks se -> e_status se = EReturned -> invoked_amo tasks (e_log se) ->
+  clog sc = spec tasks /\ x_log (fst sx) = spec tasks /\ e_log se = spec tasks.
+Proof. exact runners_coincide. Qed.
+Print Assumptions C15_runners_coincide.
+
+(* sche.Mgr: after every history of GetSche/DelSche, a name maps to one scheduler until it is
+   deleted (GetSche twice = the same one, state unchanged), other names are not affected, and a
+   scheduler created after a delete is one that no name has ever had (ids below the counter). *)
+Theorem C15_registry : forall ops n,
+  let m := m_run ops in
+  (forall k id, aget k (m_reg m) = Some id -> 0 <= id < m_next m)
+  /\ m_get (fst (m_get m n)) n = (fst (m_get m n), snd (m_get m n))
+  /\ (forall k, k <> n -> aget k (m_reg (fst (m_get m n))) = aget k (m_reg m))
+  /\ snd (m_get (m_del m n) n) = m_next m
+  /\ (forall k, k <> n -> aget k (m_reg (m_del m n)) = aget k (m_reg m)).
+Proof. exact registry_laws. Qed.
+Print Assumptions C15_registry.
+
 (* ---- non-vacuity and the double-callback witness ---- *)
 
 (* two posters, a panicking closure in the middle, interleaved with the consumer *)
@@ -169,3 +242,48 @@ Example C15_double_callback :
   clog (crun t [LCons; LCons; LCons; LCons; LCons])
   = [ETask 0 []; ETask 1 [1]; ETask 2 [2]; EFinal false [3]; EFinal true [4]].
 Proof. vm_compute. reflexivity. Qed.
+
+(* the same chain under the three runners: the same log; ExecAndWait returns after final *)
+Example C15_example_runners :
+  clog (crun ex_chain [LCons; LCons; LCons; LFire 1 0; LCons; LCons]) = spec ex_chain
+  /\ x_log (fst (x_run ex_chain [XStart; XFire 1 0])) = spec ex_chain
+  /\ snd (x_run ex_chain [XStart; XFire 1 0]) = [XOk; XPanic]
+  /\ e_log (erun ex_chain [WStart; WLoop; WFire 1 0; WLoop]) = [ETask 0 []; ETask 1 [1]; ETask 2 [2; 3]]
+  /\ e_status (erun ex_chain [WStart; WLoop; WFire 1 0; WLoop]) = ECallerPanic.
+Proof. vm_compute. repeat split. Qed.
+
+(* an empty chain: all three call final(false) at once (Simple and ExecAndWait after the fix) *)
+Example C15_example_empty :
+  clog (crun [] [LCons]) = [EFinal false []]
+  /\ x_log (fst (x_run [] [XStart])) = [EFinal false []]
+  /\ e_log (erun [] [WStart]) = [EFinal false []] /\ e_status (erun [] [WStart]) = EReturned.
+Proof. vm_compute. repeat split. Qed.
+
+(* ExecAndWait waits for final: parked while task 1 is outstanding, returned after its error *)
+Example C15_example_wait :
+  let t := [Beh [(false, [1])] [] false; Beh [] [(true, [7])] false; Beh [(false, [2])] [] false] in
+  let s1 := erun t [WStart; WLoop] in
+  let s2 := erun t [WStart; WLoop; WFire 1 0; WLoop; WLoop] in
+  e_status s1 = ELooping /\ estep t s1 WLoop = None /\ e_log s1 = [ETask 0 []; ETask 1 [1]]
+  /\ e_status s2 = EReturned /\ e_log s2 = [ETask 0 []; ETask 1 [1]; EFinal true [7]].
+Proof. vm_compute. repeat split. Qed.
+
+(* Double callback outside the scheduler variant, as in the real code (replayed by the
+   harness).  Simple: depth first - the rest of the chain runs inside the first callback, the
+   second one yields a second final.  ExecAndWait: the caller blocks for ever in its own second
+   send (capacity 1). *)
+Example C15_double_callback_simple :
+  let t := [Beh [(false, [1]); (false, [2])] [] false; Beh [(false, [3])] [] false; Beh [(false, [4])] [] false] in
+  x_log (fst (x_run t [XStart]))
+  = [ETask 0 []; ETask 1 [1]; ETask 2 [3]; EFinal false [4]; EFinal false [2]].
+Proof. vm_compute. reflexivity. Qed.
+
+Example C15_double_callback_wait :
+  let t := [Beh [(false, [1]); (false, [2])] [] false; Beh [(false, [3])] [] false] in
+  e_status (erun t [WStart]) = ECallerStuck /\ e_log (erun t [WStart]) = [ETask 0 []].
+Proof. vm_compute. repeat split. Qed.
+
+Example C15_example_registry :
+  let m := m_run [MGet 1; MGet 2; MGet 1; MDel 1; MGet 1] in
+  m_reg m = [(1, 2); (2, 1)] /\ m_next m = 3.
+Proof. vm_compute. repeat split. Qed.
